@@ -41,6 +41,7 @@ func runC05(c *Ctx) {
 	r.Doc("P5", "(= B4) the number of vacant handlers is HandlersQuantity - sum(actual): handlers whose release was not read yet are not vacant", 2)
 	r.Doc("P6", "(= B13) HandlersQuantity reaches the inner discipline as configured (the shares are shares of the handlers that exist)", 2)
 	r.Doc("P8", "(= B3) the allotment map is written only by its reset, the checked divisions, the top-up and the per-item decrement", 12)
+	r.Doc("P10", "(= B9) actual[k] -= 1 exactly once per release received, where it is received: no handler is counted busy after its release was read", 7)
 	r.Doc("P7", "(= N2 no-proceed) the round start answers 'cannot proceed' only when no handler is vacant", 2)
 	r.Doc("P4", "the pass over an input ends only when its allotment is spent, nothing is buffered / two ticks passed, it is closed, or a stop fired (so an unspent allotment means 'no data')", 4)
 	for _, p := range []*Prog{c.V1, c.V2} {
@@ -95,6 +96,14 @@ func runC05(c *Ctx) {
 			c.R.Check(o.OK, "P7", strings.TrimPrefix(o.Key, "N2@"), o.Site, o.Detail, o.Detail)
 		}
 		checkP9(c, pr)
+		// P10 (= B9): a release is taken off the in-flight count when it is received, once: a
+		// release that is remembered and applied later leaves handlers counted as busy, and with no
+		// further release they stay vacant although every input has data
+		subr := &Ctx{V1: c.V1, V2: c.V2, Tier: c.Tier, R: NewReport("tmp", c.Tier)}
+		checkB9(subr, pr)
+		for _, o := range subr.R.Obls {
+			c.R.Check(o.OK, "P10", strings.TrimPrefix(o.Key, "B9@"), o.Site, o.Detail, o.Detail)
+		}
 	}
 }
 
@@ -527,6 +536,7 @@ func runC06(c *Ctx) {
 	r.Doc("N14", "a spending phase visits the list of registered priorities", 2)
 	r.Doc("N13", "every division into the allotment map starts from the emptied map (nearest event before it is the reset)", 3)
 	r.Doc("N12", "the may-proceed answer of a dividing function is the for-all over the list it just divided", 3)
+	r.Doc("N17", "(= P2 refresh, D2 re-sort; v1) every change of the registered set re-sorts the list and re-divides the shares before the scheduler goes on", 3)
 	r.Doc("N9", "(= P4) the pass over an input is left early only for lack of data, closure or stop", 4)
 	r.Doc("N8", "second-phase candidates: first the priorities that used up their allotment (tactic == 0), then those with actual < hypothetical share", 4)
 	for _, p := range []*Prog{c.V1, c.V2} {
@@ -557,6 +567,19 @@ func runC06(c *Ctx) {
 		}
 		checkN6(c, pr)
 		checkSpendLoopExits(c, pr, "N9")
+		// N17 (= P2 refresh, D2 re-sort): whenever the registered set changes the shares are divided
+		// anew before the scheduler goes on (a priority re-added without a share is never topped up
+		// and never a candidate: its input starves while the others stay loaded)
+		if pr.v1 {
+			subs := &Ctx{V1: c.V1, V2: c.V2, Tier: c.Tier, R: NewReport("tmp", c.Tier)}
+			checkP2(subs, pr)
+			checkD2(subs, pr)
+			for _, o := range subs.R.Obls {
+				if strings.HasSuffix(o.Key, "#refresh") || strings.HasSuffix(o.Key, "#resort") {
+					c.R.Check(o.OK, "N17", o.Key, o.Site, o.Detail, o.Detail)
+				}
+			}
+		}
 		// N10 (= E2 registration): a channel registered under a priority is read: its entry does not
 		// inherit the drained flag of a previous channel
 		if sr, err := resolveSchedRoles(p); err == nil {
